@@ -1240,7 +1240,15 @@ fn parse_expression(
                 {
                     let variable = parse_symbol(tokens, id_gen, diagnostics, Some("method name"));
 
-                    if peeked_symbol_is(tokens, "(") {
+                    // As with function calls, the parenthesis must
+                    // touch the method name. Otherwise `foo.bar` followed
+                    // by `(x)` on the next line is two expressions.
+                    let paren_touches = matches!(
+                        tokens.peek(),
+                        Some(paren) if paren.position.start_offset == variable.position.end_offset
+                    );
+
+                    if peeked_symbol_is(tokens, "(") && paren_touches {
                         // TODO: just treat a method call as a call of a dot access.
                         let arguments = parse_call_arguments(tokens, id_gen, diagnostics);
 
